@@ -5,6 +5,7 @@ import ZkElGamal.Conc.Keccak
 Driver ops for authenticated encryption (C13):
   ae encrypt <key16> <amount> <seed>  → emit:!some:<amount> ae dec <key16> <hex36>   (nonce = SHA3-512(seed)[0..12])
   ae dec <key16> <hex36>              → some:<x> | none
+  ae seq <key16>:<hex36> …            → the results of the decryptions in order, joined by `|`
 -/
 namespace Zk.Driver
 open Zk Zk.Conc
@@ -29,6 +30,18 @@ def opAe (a : List String) : String :=
       | some x => s!"some:{x}"
       | none => "none"
     | _, _ => "bad-op"
+  | "seq" :: toks =>
+    -- several decryptions one after the other in one process: `key:ct` tokens, results joined by `|`
+    "|".intercalate (toks.map fun tok =>
+      match tok.splitOn ":" with
+      | [k, c] => match ofHex k, ofHex c with
+        | some key, some ct =>
+          if key.length ≠ 16 then "bad" else
+          match AuthEnc.decryptAmount aesPrims key ct with
+          | some x => s!"some:{x}"
+          | none => "none"
+        | _, _ => "bad"
+      | _ => "bad")
   | _ => "bad-op"
 
 end Zk.Driver
